@@ -13,14 +13,17 @@ META = dict(
               "include_service<>, all ranges, types and MTUs; tie: generated server<> instantiations (fixed handles, gaps, "
               "16/128 bit uuids), range sweeps over handles / gap interiors / service ends and closed-loop discovery",
     level_note="PROVED (unbounded, wf configurations without include_service<>): the abstract discover_all theorem; Read By Group "
-               "Type in full (byte-exact response = non-empty prefix of matching / Not Found iff empty; discover_all exact); Find "
-               "Information: Not Found iff empty, response = first matching attribute + a subsequence of the rest (in range, typed, "
-               "ascending), prefix and discover_all exact if the uuid formats are uniform; Read By Type (out_size <= 257): entries "
-               "are a subsequence of matching, Not Found if nothing matches, and (all out_size) a Read By Type Response whenever a "
-               "readable attribute matches. REFUTED (known findings, not repaired because baseline "
-               "unit tests assert the behaviour): prefix / enumerate-exact for Find Information across a 16/128 bit format change and "
-               "for Read By Type across a value length change. MONITORED / TIED ONLY: the monitor-level statement, Read By Type "
-               "byte level for out_size > 257, maximality of responses. See docs/C02.md")
+               "Type in full (byte-exact response = non-empty maximal prefix of matching / Not Found iff empty; discover_all exact); "
+               "Find Information: byte-exact response, Not Found iff empty, first matching attribute + a subsequence of the rest, "
+               "prefix / discover_all exact / maximal ('as far as fits') within the uuid format of the first; Read By Type: entries are "
+               "a subsequence of matching, Not Found if nothing matches, a response whenever a readable attribute matches, byte level "
+               "for every out_size (8 bit size cut). THE MONITOR THEOREM on regular configurations (executable predicate c02_regular: "
+               "16 bit types only, equal state independent value lengths per type, max_mtu <= 257): the monitor accepts the model's trace "
+               "for every request history of any length (no FAULT proved for the three handlers on reachable states). REFUTED (known "
+               "findings, not repaired because baseline unit tests assert the behaviour): the monitor theorem in general - prefix / "
+               "enumerate-exact for Find Information across a 16/128 bit format change and for Read By Type across a value length "
+               "change. MONITORED / TIED ONLY: everything outside c02_regular, Read By Type for type 0x0001, maximality of Read By "
+               "Type. See docs/C02.md")
 
 
 class C02(AttBase):
